@@ -91,6 +91,7 @@ class ModuleInfo:
         self.imports = {}      # local name -> (module, name) | (module, None)
         self.consts = {}       # name -> python value (folded)
         self.assigns = {}      # name -> last module-level value expr
+        self.all_assigns = {}  # name -> [every module-level value expr]
         self.not_analysed = []  # folded-away arms
 
 
@@ -391,12 +392,14 @@ class Model:
                 for t in st.targets:
                     if isinstance(t, ast.Name):
                         mi.assigns[t.id] = st.value
+                        mi.all_assigns.setdefault(t.id, []).append(st.value)
                         self._fold_const(mi, t.id, st.value)
                     elif isinstance(t, ast.Tuple) and isinstance(st.value, ast.Tuple) \
                             and len(t.elts) == len(st.value.elts):
                         for te, ve in zip(t.elts, st.value.elts):
                             if isinstance(te, ast.Name):
                                 mi.assigns[te.id] = ve
+                                mi.all_assigns.setdefault(te.id, []).append(ve)
                                 self._fold_const(mi, te.id, ve)
             elif isinstance(st, ast.ClassDef):
                 self._index_class(st, mi)
